@@ -345,7 +345,7 @@ impl Prop for C13 {
         "(a) generated documents re-encoded into each of the 36 encodings with representable characters, injected malformed / truncated sequences and text nodes of 1-8 KiB, under schedules that cut inside multi-byte characters: text (per node) and comment text read by handlers vs encoding_rs whole-buffer decode of the ground-truth bytes; (b) inserted content (before/prepend/append/after/replace/set_attribute/document end, Html and Text, streaming) with mappable and unmappable characters vs encoding_rs encode with numeric character references; (c) 0-3 meta charset declarations (valid / invalid / non-ASCII-compatible labels, charset and http-equiv forms) at varied positions: text decoded in the right encoding on each side of the first valid declaration, exactly one switch, set_encoding before any byte of the new encoding; (d) AsciiCompatibleEncoding::new over all 40 encoding_rs encodings; non-trivial: non-ASCII bytes with a cut or a 1024-byte buffer boundary inside the node, unmappable insertions, or a charset switch; distinct = hash(case)".into()
     }
     fn run_shard(&self, ctx: &mut Ctx<'_>) {
-        let n = ctx.budget(400_000, 8_000_000);
+        let n = ctx.budget(400_000, 24_000_000);
         let encs = gen::ascii_compatible_encodings();
         // (d) exhaustive
         if ctx.shard == 0 {
